@@ -10,7 +10,7 @@ package template
 // early only when *both* sets have run empty. (That the intersection itself is computed right is covered by the
 // bounded stand-in: the full functional proof over its nested map loops did not discharge within the budgets.)
 //@ func (*Template).Data
-//@   props C20
+//@   props C20 C04
 //@   nosafe
 //@   requires t != nil
 //@   assumes forall i int :: 0 <= i && i < len(alerts) ==> alerts[i] != nil
@@ -25,8 +25,12 @@ package template
 //@   loop 5 invariant fresh(data) && len(data.Alerts) == len(alerts) && data.NotificationReason == notificationReason
 //@   loop 6 invariant fresh(data) && len(data.Alerts) == len(alerts) && data.NotificationReason == notificationReason && rangeindex + 1 < len(alerts)
 //@   loop 6 earlyexit len(commonLabels) == 0 && len(commonAnnotations) == 0
+//@   loop 6 invariant fresh(commonLabels) && fresh(commonAnnotations)
+//@   loop 7 invariant fresh(commonLabels) && fresh(commonAnnotations)
+//@   loop 8 invariant fresh(commonLabels) && fresh(commonAnnotations)
 //@   loop 7 invariant fresh(data) && len(data.Alerts) == len(alerts) && data.NotificationReason == notificationReason && rangeindex6 + 2 < len(alerts)
 //@   loop 8 invariant fresh(data) && len(data.Alerts) == len(alerts) && data.NotificationReason == notificationReason && rangeindex6 + 2 < len(alerts)
 //@   loop 9 invariant fresh(data) && len(data.Alerts) == len(alerts) && data.NotificationReason == notificationReason
 //@   loop 10 invariant fresh(data) && len(data.Alerts) == len(alerts) && data.NotificationReason == notificationReason
+//@   ensures [the-alerts_-own-label-and-annotation-sets-are-untouched] forall i int :: 0 <= i && i < len(alerts) ==> dom(alerts[i].Labels) == old(dom(alerts[i].Labels)) && dom(alerts[i].Annotations) == old(dom(alerts[i].Annotations))
 //@   noeffect dynamic:global:Alerts Alerts).Status Alert).Status Fingerprint).String URL).String regexp.QuoteMeta
